@@ -85,9 +85,16 @@ func TestGen(t *testing.T) {
 	}
 	if only("scheduler") {
 		probeScheduler(t)
+		probeSchedulerHeadEvent(t)
+	}
+	if only("parsigex") {
+		probeParSigEx(t, sks)
+	}
+	if only("consensus") {
+		probeConsensusDecode(t, uks)
 	}
 	if only("validatorapi") {
-		probeValidatorAPI(t)
+		probeValidatorAPI(t, hx.Thorough())
 	}
 
 	obsMu.Lock()
@@ -193,7 +200,12 @@ func selfTest() ([]string, bool) {
 	}{staticProbe[:0], func() {}}
 	e2 := e1
 	check("only-empty-slice-and-func", &e1, &e2, false, "")
-	// 10. deep equality of reflect-based snapshot vs reflect.DeepEqual on an untouched value
+	// 10. a value that reaches the same cells along two paths and shares them with another value
+	sharedBits := []byte{1, 2, 3}
+	d1 := struct{ X, Y []byte }{sharedBits, sharedBits}
+	d2 := struct{ Z []byte }{sharedBits}
+	check("cell-reachable-twice", &d1, &d2, true, "")
+	// 11. deep equality of reflect-based snapshot vs reflect.DeepEqual on an untouched value
 	q1, q2 := mk(), mk()
 	if !reflect.DeepEqual(Snapshot(q1), Snapshot(q2)) {
 		ok = false
